@@ -151,6 +151,24 @@ func pipen(files []string) string {
 				digest = append(digest, fmt.Sprintf("-- %s := %s", fd.Name.Name, src(ret0)))
 				continue
 			}
+			// a named result `func(a A) (c C) { …; c = E; return }` is `func(a A) C { …; return E }`
+			if rl := lit.Type.Results; rl != nil && len(rl.List) == 1 && len(rl.List[0].Names) == 1 && lit.Body != nil && len(lit.Body.List) >= 2 {
+				rn := rl.List[0].Names[0].Name
+				n := len(lit.Body.List)
+				as, ok1 := lit.Body.List[n-2].(*ast.AssignStmt)
+				rt, ok2 := lit.Body.List[n-1].(*ast.ReturnStmt)
+				mentioned := 0
+				ast.Inspect(lit.Body, func(x ast.Node) bool {
+					if i, ok := x.(*ast.Ident); ok && i.Name == rn {
+						mentioned++
+					}
+					return true
+				})
+				if ok1 && ok2 && len(rt.Results) == 0 && as.Tok.String() == "=" && len(as.Lhs) == 1 && len(as.Rhs) == 1 && src(as.Lhs[0]) == rn && mentioned == 1 {
+					lit.Body.List = append(lit.Body.List[:n-2], &ast.ReturnStmt{Results: []ast.Expr{as.Rhs[0]}})
+					rl.List[0].Names = nil
+				}
+			}
 			lx, ly := funcType(lit.Type, fd.Name.Name)
 			if lx != rx || ly != ry || len(lit.Type.Params.List[0].Names) != 1 {
 				fail(fset.Position(lit.Pos()), "%s: closure type differs from the declared result", fd.Name.Name)
